@@ -149,7 +149,10 @@ func VxH_C04_shared_rule() {
 	x, y := pr.Float(vx.F32("x")), pr.Float(vx.F32("y"))
 	vx.Assume(vx.And(vx.And(x > 0, x <= 100), vx.And(y > 0, y <= 100)))
 	tr := pr.Transforms{{String: "translate", Dimensions: []pr.Dimension{{Value: x, Unit: pr.Em}, {Value: y, Unit: pr.Em}}}}
-	shared := []validation.Declaration{vxDecl(pr.PTransform, tr), vxDecl(pr.PWidth, vxLen(x, pr.Em)), vxDecl(pr.PMarginLeft, vxLen(y, pr.Em))}
+	grad := pr.Images{pr.LinearGradient{ColorStops: pr.ColorsStops{{Position: pr.Dimension{Value: x, Unit: pr.Em}}, {Position: pr.Dimension{Value: y, Unit: pr.Em}}}}}
+	gauto := pr.GridAuto{pr.NewGridDimsValue(vxLen(x, pr.Em))}
+	shared := []validation.Declaration{vxDecl(pr.PTransform, tr), vxDecl(pr.PWidth, vxLen(x, pr.Em)), vxDecl(pr.PMarginLeft, vxLen(y, pr.Em)),
+		vxDecl(pr.PBackgroundImage, grad), vxDecl(pr.PGridAutoColumns, gauto), vxDecl(pr.PBorderImageOutset, pr.Values{vxLen(x, pr.Em)})}
 	m := matcher{
 		vxRule("p", vxDecl(pr.PFontSize, vxLen(fa, pr.Px))),
 		vxRule("q", vxDecl(pr.PFontSize, vxLen(fb, pr.Px))),
@@ -163,6 +166,13 @@ func VxH_C04_shared_rule() {
 	vx.Assert("second-element-translate", vx.And(vx.ApproxEq(float64(tb[0].Dimensions[0].Value), float64(x*fb)), vx.ApproxEq(float64(tb[0].Dimensions[1].Value), float64(y*fb))))
 	vx.Assert("second-element-width", vx.ApproxEq(float64(sb.GetWidth().Value), float64(x*fb)))
 	vx.Assert("second-element-margin", vx.ApproxEq(float64(sb.GetMarginLeft().Value), float64(y*fb)))
+	ga, gb := sa.GetBackgroundImage()[0].(pr.LinearGradient), sb.GetBackgroundImage()[0].(pr.LinearGradient)
+	vx.Assert("first-element-gradient-stop", vx.ApproxEq(float64(ga.ColorStops[0].Position.Value), float64(x*fa)))
+	vx.Assert("second-element-gradient-stop", vx.And(vx.ApproxEq(float64(gb.ColorStops[0].Position.Value), float64(x*fb)), vx.ApproxEq(float64(gb.ColorStops[1].Position.Value), float64(y*fb))))
+	vx.Assert("first-element-grid-auto", vx.ApproxEq(float64(sa.GetGridAutoColumns()[0].V.Value), float64(x*fa)))
+	vx.Assert("second-element-grid-auto", vx.ApproxEq(float64(sb.GetGridAutoColumns()[0].V.Value), float64(x*fb)))
+	vx.Assert("first-element-border-image-outset", vx.ApproxEq(float64(sa.GetBorderImageOutset()[0].Value), float64(x*fa)))
+	vx.Assert("second-element-border-image-outset", vx.ApproxEq(float64(sb.GetBorderImageOutset()[0].Value), float64(x*fb)))
 }
 
 // relative keywords on the root element are resolved against the initial values.
